@@ -1,7 +1,6 @@
 (* C18 -- proofs, part 13: parseBitVector on binary / octal / hexadecimal digit strings without a
-   width prefix: the result is, bit for bit, the digit string read as an array of bits --
-   provided no digit straddles a 64-bit word (always true for binary and hexadecimal; for octal
-   exactly when there are at most 21 digits, cf. parse_octal_22_digits_refuted). *)
+   width prefix: the result is, bit for bit, the digit string read as an array of bits, for ANY
+   number of digits (octal digits may straddle 64-bit word borders). *)
 From Coq Require Import List NArith ZArith Bool Lia Ascii String.
 From Gatery Require Import Bits BvsDefs BvsSpec BvsLeaf BvsWords BvsCopy BvsAbs BvsOps BvsEq
      BvsQuery BvsCmp BvsMerge BvsBig BvsSeq.
@@ -20,13 +19,10 @@ Definition digits_spec (bps : N) (num : list ascii) : sst :=
   map (fun p => map (fun j => digit_bit bps num p (N.of_nat j)) (seq 0 (length num * N.to_nat bps)))
       [0%nat; 1%nat].
 
-Definition no_straddle (bps cnt : N) : Prop := forall k, k < cnt -> (k * bps) mod 64 + bps <= 64.
-
 Section Loop.
 Variables (bps : N) (num : list ascii).
-Hypothesis Hbps : 0 < bps.
+Hypothesis Hbps : 0 < bps <= 64.
 Local Notation cnt := (N.of_nat (length num)).
-Hypothesis Hns : no_straddle bps cnt.
 
 Definition pinv (i : N) (s : bvs) : Prop :=
   good 2 s /\ bsize s = cnt * bps /\
@@ -35,10 +31,10 @@ Definition pinv (i : N) (s : bvs) : Prop :=
 
 Lemma parseHexLoop_ok rest : forall done s,
   num = done ++ rest -> pinv (N.of_nat (length done)) s ->
-  exists s', parseHexLoop bps rest cnt (N.of_nat (length done)) s = Some s' /\ pinv cnt s'.
+  pinv cnt (parseHexLoop bps rest cnt (N.of_nat (length done)) s).
 Proof.
   induction rest as [|c rest IH]; intros done s Hnum (G & Hsz & B).
-  - cbn [parseHexLoop]. exists s. split; [reflexivity|].
+  - cbn [parseHexLoop].
     assert (E : N.of_nat (length done) = cnt).
     { rewrite Hnum, app_nil_r. reflexivity. }
     rewrite E in B. split; [exact G | split; [exact Hsz | exact B]].
@@ -48,19 +44,18 @@ Proof.
     assert (Hi : i < cnt) by (subst i; lia).
     set (dst := cnt - 1 - i).
     assert (Hd : dst < cnt) by (subst dst; lia).
-    pose proof (Hns dst Hd) as Hs.
-    destruct (N.leb_spec ((dst * bps) mod 64 + bps) 64) as [_ | F]; [|lia].
     destruct G as (W & C & P).
-    set (s1 := insertNS s VALUE (dst * bps) bps (fst (digitVal c))).
-    set (s2 := insertNS s1 DEFINED (dst * bps) bps (snd (digitVal c))).
+    set (s1 := insertW s VALUE (dst * bps) bps (fst (digitVal c))).
+    set (s2 := insertW s1 DEFINED (dst * bps) bps (snd (digitVal c))).
     assert (In1 : dst * bps + bps <= bsize s) by (rewrite Hsz; subst dst; nia).
-    assert (W1 : wf s1) by (apply wf_insertNS; exact W).
-    assert (C1 : clean s1) by (apply clean_insertNS; assumption).
-    assert (W2 : wf s2) by (apply wf_insertNS; exact W1).
-    assert (C2 : clean s2) by (apply clean_insertNS; assumption).
+    assert (W1 : wf s1) by (apply wf_insertW; exact W).
+    assert (C1 : clean s1) by (apply clean_insertW; try assumption; lia).
+    assert (W2 : wf s2) by (apply wf_insertW; exact W1).
+    assert (C2 : clean s2) by (apply clean_insertW; try assumption; lia).
     assert (P2 : length (planes s2) = 2%nat).
-    { unfold s2, s1, insertNS. rewrite !np_on_plane. exact P. }
-    destruct (IH (done ++ [c]) s2) as (s' & E' & I').
+    { unfold s2, s1, insertW. rewrite !np_on_plane. exact P. }
+    assert (I' : pinv cnt (parseHexLoop bps rest cnt (N.of_nat (length (done ++ [c]))) s2)).
+    { apply IH.
     + rewrite <- app_assoc. exact Hnum.
     + rewrite app_length. cbn [length]. replace (N.of_nat (length done + 1)) with (i + 1) by (subst i; lia).
       split; [split; [exact W2 | split; [exact C2 | exact P2]] | split; [exact Hsz|]].
@@ -70,11 +65,11 @@ Proof.
         assert (Wp : forall q, (q < 2)%nat -> wfP (bsize s) (plane s q)).
         { intros q Hq. apply wfP_plane; [exact W | lia]. }
         assert (Blk : forall v q, (q < 2)%nat ->
-                  wbit (insertNSP (plane s q) (dst * bps) bps v) j
+                  wbit (insertWP (plane s q) (dst * bps) bps v) j
                   = if (dst * bps <=? j) && (j <? dst * bps + bps) then N.testbit v (j - dst * bps)
                     else wbit (plane s q) j).
         { intros v q Hq. pose proof (Wp q Hq) as Wq. pose proof (wfP_in _ _ Wq).
-          apply wbit_insertNSP; [apply Wq | lia | lia]. }
+          apply wbit_insertWP; [apply Wq | lia | lia]. }
         assert (Dg : forall q, dst * bps <= j < dst * bps + bps ->
                   digit_bit bps num q j
                   = N.testbit (if Nat.eqb q 0 then fst (digitVal c) else snd (digitVal c)) (j - dst * bps)).
@@ -85,8 +80,8 @@ Proof.
         assert (Hp' : p = 0%nat \/ p = 1%nat) by lia.
         destruct Hp' as [-> | ->].
         -- (* VALUE plane: written by s1, untouched by s2 *)
-           unfold s2, insertNS. rewrite plane_on_plane_other by (unfold DEFINED; lia).
-           unfold s1, insertNS. unfold VALUE. rewrite plane_on_plane_same by lia.
+           unfold s2, insertW. rewrite plane_on_plane_other by (unfold DEFINED; lia).
+           unfold s1, insertW. unfold VALUE. rewrite plane_on_plane_same by lia.
            rewrite Blk by lia. rewrite (B 0%nat) by lia.
            destruct ((dst * bps <=? j) && (j <? dst * bps + bps)) eqn:E.
            ++ split_cond E. rewrite (Dg 0%nat) by lia. cbn [Nat.eqb].
@@ -96,8 +91,8 @@ Proof.
               assert (Hnext : (cnt - i) * bps = dst * bps + bps) by (subst dst; nia).
               rewrite Hoff, Hnext. revert E. cmp_cases; bool_close; intros; try discriminate.
         -- (* DEFINED plane: written by s2 *)
-           unfold s2, insertNS. unfold DEFINED. rewrite plane_on_plane_same by (unfold s1, insertNS; rewrite np_on_plane; lia).
-           unfold s1, insertNS. rewrite plane_on_plane_other by (unfold VALUE; lia).
+           unfold s2, insertW. unfold DEFINED. rewrite plane_on_plane_same by (unfold s1, insertW; rewrite np_on_plane; lia).
+           unfold s1, insertW. rewrite plane_on_plane_other by (unfold VALUE; lia).
            rewrite Blk by lia. rewrite (B 1%nat) by lia.
            destruct ((dst * bps <=? j) && (j <? dst * bps + bps)) eqn:E.
            ++ split_cond E. rewrite (Dg 1%nat) by lia. cbn [Nat.eqb].
@@ -106,25 +101,25 @@ Proof.
            ++ assert (Hoff : (cnt - (i + 1)) * bps = dst * bps) by (subst dst; f_equal; lia).
               assert (Hnext : (cnt - i) * bps = dst * bps + bps) by (subst dst; nia).
               rewrite Hoff, Hnext. revert E. cmp_cases; bool_close; intros; try discriminate.
-    + exists s'. split; [|exact I'].
-      rewrite app_length in E'. cbn [length] in E'.
-      replace (N.of_nat (length done + 1)) with (i + 1) in E' by (subst i; lia). exact E'.
+    }
+    rewrite app_length in I'. cbn [length] in I'.
+    replace (N.of_nat (length done + 1)) with (i + 1) in I' by (subst i; lia). exact I'.
 Qed.
 End Loop.
 
 Theorem parseHex_digits bps num :
-  0 < bps -> no_straddle bps (N.of_nat (length num)) ->
+  0 < bps <= 64 ->
   exists s, parseHex bps (mk_empty 2) num = Some s /\ wf s /\ clean s
             /\ bsize s = N.of_nat (length num) * bps /\ abs s = digits_spec bps num.
 Proof.
-  intros Hb Hns. unfold parseHex. cbn [bsize mk_empty]. cbn [N.eqb].
+  intros Hb. unfold parseHex. cbn [bsize mk_empty]. cbn [N.eqb].
   set (cnt := N.of_nat (length num)).
   set (r := resize (mk_empty 2) (cnt * bps)).
   assert (G0 : good 2 (mk_empty 2)) by apply good_empty.
   assert (Gr : good 2 r).
   { unfold r. split; [apply wf_resize, G0 | split; [apply clean_resize, G0 | rewrite np_resize; apply G0]]. }
-  destruct (parseHexLoop_ok bps num Hb Hns num [] r eq_refl) as (s & E & (G & Hsz & B)).
-  - split; [exact Gr | split; [reflexivity|]].
+  assert (Base : pinv bps num (N.of_nat (length (@nil ascii))) r).
+  { split; [exact Gr | split; [reflexivity|]].
     intros p Hp j. cbn [length]. change (N.of_nat 0) with 0. rewrite N.sub_0_r. fold cnt.
     destruct (N.ltb_spec j (cnt * bps)) as [Hlt | Hge].
     + destruct (N.leb_spec (cnt * bps) j); [lia|]. bsimpl.
@@ -133,9 +128,12 @@ Proof.
         rewrite wbit_nil; apply andb_false_r.
     + rewrite andb_false_r.
       assert (Pr : (p < length (planes r))%nat) by (destruct Gr as (_ & _ & Pr); rewrite Pr; exact Hp).
-      apply (cleanP_plane r p (proj1 (proj2 Gr)) Pr). exact Hge.
-  - fold cnt in Hsz, B. exists s. fold cnt in E. cbn [length] in E. change (N.of_nat 0) with 0 in E.
-    destruct G as (W & C & P). repeat split; try assumption.
+      apply (cleanP_plane r p (proj1 (proj2 Gr)) Pr). exact Hge. }
+  pose proof (parseHexLoop_ok bps num Hb num [] r eq_refl Base) as (G & Hsz & B).
+  cbn [length] in G, Hsz, B. change (N.of_nat 0) with 0 in G, Hsz, B. fold cnt in G, Hsz, B.
+  set (s := parseHexLoop bps num cnt 0 r) in *.
+  exists s. split; [reflexivity|].
+  - destruct G as (W & C & P). repeat split; try assumption.
     unfold digits_spec, abs.
     destruct (planes s) as [|p0 [|p1 [|p2 rest]]] eqn:EP; cbn [length] in P; try lia.
     cbn [map]. f_equal; [|f_equal].
@@ -150,13 +148,6 @@ Proof.
       replace (cnt - cnt) with 0 by lia. cbn [N.mul].
       destruct (N.leb_spec 0 j); [|lia]. destruct (N.ltb_spec j (cnt * bps)); [reflexivity | lia].
 Qed.
-
-Lemma no_straddle_1 cnt : no_straddle 1 cnt.
-Proof. intros k _. lia. Qed.
-Lemma no_straddle_4 cnt : no_straddle 4 cnt.
-Proof. intros k _. lia. Qed.
-Lemma no_straddle_3 cnt : cnt <= 21 -> no_straddle 3 cnt.
-Proof. intros H k Hk. lia. Qed.
 
 (* the literal forms "b...", "x...", "o..." (no width prefix) *)
 Definition bin_body (body : list ascii) : bool := forallb (fun c => in_range c 48 49 || is_x c) body.
@@ -174,7 +165,7 @@ Proof.
   change (N_of_ascii "b" =? 115) with false. change (N_of_ascii "b" =? 120) with false.
   change (N_of_ascii "b" =? 111) with false. change (N_of_ascii "b" =? 98) with true. cbv iota.
   fold (bin_body body). rewrite Hb.
-  destruct (parseHex_digits 1 body ltac:(lia) (no_straddle_1 _)) as (s & E & W & C & Sz & A).
+  destruct (parseHex_digits 1 body ltac:(lia)) as (s & E & W & C & Sz & A).
   exists s. rewrite N.mul_1_r in Sz. auto.
 Qed.
 
@@ -187,20 +178,20 @@ Proof.
   change (is_digit "x"%char) with false. cbn [fst snd parseWidth].
   change (N_of_ascii "x" =? 115) with false. change (N_of_ascii "x" =? 120) with true. cbv iota.
   fold (hex_body body). rewrite Hb.
-  destruct (parseHex_digits 4 body ltac:(lia) (no_straddle_4 _)) as (s & E & W & C & Sz & A).
+  destruct (parseHex_digits 4 body ltac:(lia)) as (s & E & W & C & Sz & A).
   exists s. auto.
 Qed.
 
 Theorem parse_octal_literal body :
-  oct_body body = true -> (length body <= 21)%nat ->
+  oct_body body = true ->
   exists s, parseBitVector ("o"%char :: body) = Some s /\ wf s /\ clean s
             /\ bsize s = N.of_nat (length body) * 3 /\ abs s = digits_spec 3 body.
 Proof.
-  intros Hb Hl. unfold parseBitVector. cbn [take_digits is_digit N_of_ascii]. cbv beta iota zeta.
+  intro Hb. unfold parseBitVector. cbn [take_digits is_digit N_of_ascii]. cbv beta iota zeta.
   change (is_digit "o"%char) with false. cbn [fst snd parseWidth].
   change (N_of_ascii "o" =? 115) with false. change (N_of_ascii "o" =? 120) with false.
   change (N_of_ascii "o" =? 111) with true. cbv iota.
   fold (oct_body body). rewrite Hb.
-  destruct (parseHex_digits 3 body ltac:(lia) (no_straddle_3 (N.of_nat (length body)) ltac:(lia))) as (s & E & W & C & Sz & A).
+  destruct (parseHex_digits 3 body ltac:(lia)) as (s & E & W & C & Sz & A).
   exists s. auto.
 Qed.
